@@ -88,6 +88,7 @@ func Gen(run *vlib.Run, seed uint64, tier string) {
 	genOS2(run, r.Fork("os2"), tier)
 	genDerived(run, r.Fork("derived"), tier)
 	genVersion(run, r.Fork("version"), tier)
+	genCaret(run, r.Fork("caret"), tier)
 	for k, v := range stats {
 		run.Extra[k] = v
 	}
